@@ -10179,6 +10179,19 @@ typename SPxSolverBase<R>::Status SoPlexBase<R>::optimize(volatile bool* interru
    }
    else if(intParam(SoPlexBase<R>::SYNCMODE) == SYNCMODE_ONLYREAL)
    {
+      // the rational LP is a copy of the real LP: remove the persistent scaling an earlier floating-point solve has left in
+      // the real LP first, otherwise the exact solve answers the scaled LP instead of the user's LP
+      if(_isRealLPScaled)
+      {
+         if(_isRealLPLoaded)
+            _solver.unscaleLPandReloadBasis();
+         else
+            _realLP->unscaleLP();
+
+         _isRealLPScaled = false;
+         ++_unscaleCalls;
+      }
+
       _syncLPRational();
       _optimizeRational(interrupt);
    }
